@@ -150,6 +150,83 @@ func rewriteSelects(src, name string) (string, int, error) {
 	return string(fm), counter, nil
 }
 
+// insertYields makes the moment right after a channel receive a scheduling point: a goroutine that was
+// woken by a receive (in a select clause or a plain receive statement) otherwise runs on to its next
+// lock without the simulator being able to let anybody else in, although in reality anything can
+// happen in between ("Start() got the Configure result but has not set its started flag yet").
+// Textual insertions of simorder.Yield(site) calls; returns the new source and their number.
+func insertYields(src, name string) (string, int, error) {
+	fset := token.NewFileSet()
+	f, err := parser.ParseFile(fset, name, src, parser.ParseComments)
+	if err != nil {
+		return "", 0, err
+	}
+	off := func(p token.Pos) int { return fset.Position(p).Offset }
+	isRecv := func(st ast.Stmt) bool {
+		switch x := st.(type) {
+		case *ast.ExprStmt:
+			u, ok := x.X.(*ast.UnaryExpr)
+			return ok && u.Op == token.ARROW
+		case *ast.AssignStmt:
+			if len(x.Rhs) == 1 {
+				u, ok := x.Rhs[0].(*ast.UnaryExpr)
+				return ok && u.Op == token.ARROW
+			}
+		}
+		return false
+	}
+	type ins struct {
+		at   int
+		text string
+	}
+	var list []ins
+	site := func(p token.Pos) string { return fmt.Sprintf("%s:%d", name, fset.Position(p).Line) }
+	ast.Inspect(f, func(n ast.Node) bool {
+		switch x := n.(type) {
+		case *ast.CommClause:
+			if x.Comm != nil && isRecv(x.Comm) {
+				list = append(list, ins{off(x.Colon) + 1, fmt.Sprintf(" simorder.Yield(%q);", site(x.Pos()))})
+			}
+		case *ast.BlockStmt:
+			for _, st := range x.List {
+				if isRecv(st) {
+					list = append(list, ins{off(st.End()), fmt.Sprintf("; simorder.Yield(%q)", site(st.Pos()))})
+				}
+			}
+		case *ast.CaseClause:
+			for _, st := range x.Body {
+				if isRecv(st) {
+					list = append(list, ins{off(st.End()), fmt.Sprintf("; simorder.Yield(%q)", site(st.Pos()))})
+				}
+			}
+		}
+		return true
+	})
+	if len(list) == 0 {
+		return src, 0, nil
+	}
+	sort.Slice(list, func(i, j int) bool { return list[i].at > list[j].at })
+	res := src
+	for _, in := range list {
+		res = res[:in.at] + in.text + res[in.at:]
+	}
+	if !strings.Contains(res, "\"nrisim/simorder\"") {
+		i := strings.Index(res, "\nimport (")
+		if i >= 0 {
+			res = res[:i] + "\nimport (\n\t\"nrisim/simorder\"" + res[i+len("\nimport ("):]
+		} else {
+			j := strings.Index(res, "\npackage ")
+			k := j + 1 + strings.Index(res[j+1:], "\n")
+			res = res[:k] + "\n\nimport \"nrisim/simorder\"\n" + res[k:]
+		}
+	}
+	fm, err := format.Source([]byte(res))
+	if err != nil {
+		return "", 0, fmt.Errorf("%s with yields does not parse: %v", name, err)
+	}
+	return string(fm), len(list), nil
+}
+
 func commClauses(s *ast.SelectStmt) int {
 	n := 0
 	for _, c := range s.Body.List {
